@@ -311,6 +311,15 @@ def run_proj(c):
     lw = None if LW is None else (np.array([r[0] for r in LW]) if scalar else np.array(LW))
     tabs = Tables()
     mirror_project(fam, scalar, X, LW if LW is not None else [[0.0] * len(X[0]) for _ in X], tabs)
+    if c.get("t") is not None:
+        # tables for the images of the samples in the base space (used by the model variant in which
+        # TransformedMessage.project transforms its samples); raw samples outside the domain of a transform give nan
+        try:
+            TX = [[mirror_tdet(c["t"]["stack"], v, tabs) for v in row] for row in X]
+            if all(math.isfinite(v) for row in TX for v in row):
+                mirror_project(fam, scalar, TX, LW if LW is not None else [[0.0] * len(X[0]) for _ in X], tabs)
+        except (ValueError, ZeroDivisionError, OverflowError, FloatingPointError):
+            pass
     cls = FAMS[fam]
     out = {}
     try:
@@ -517,6 +526,7 @@ def mirror_tdet(stack, x, tabs):
             tabs.normpdf[hexf(f)] = hexf(pdf)
             tabs.add_log(1 / pdf)
             x = f
+    return x
 
 
 def run_det(c):
